@@ -206,7 +206,7 @@ func run(c *harness.Ctx, i int) {
 		return
 	}
 	dir := c.CaseDir()
-	leg := []string{"library", "copy", "cli-default", "cli-datadog", "mixed"}[rng.Intn(5)]
+	leg := []string{"library", "copy", "cli-default", "cli-datadog", "mixed", "streaming-frames"}[rng.Intn(6)]
 	uncompressed := rng.Intn(2) == 0
 	class := classes[rng.Intn(len(classes))]
 	want := map[desync.ChunkID][]byte{}
@@ -302,8 +302,16 @@ func run(c *harness.Ctx, i int) {
 		dsu.WriteFile(file, blob)
 		idxFile := filepath.Join(dir, "blob.caibx")
 		dsu.Must(dsu.WriteIndex(idxFile, idx))
-		cfg := cfgFor(dir, map[string]bool{store: uncompressed})
-		cmd := exec.Command(bin, "--config", cfg, "chop", "-s", store, idxFile, file)
+		cfgStore, argStore := store, store
+		switch rng.Intn(3) {
+		case 1:
+			argStore = "store" // relative on the command line, absolute in the config
+		case 2:
+			cfgStore, argStore = "store", "./store"
+		}
+		cfg := cfgFor(dir, map[string]bool{cfgStore: uncompressed})
+		cmd := exec.Command(bin, "--config", cfg, "chop", "-s", argStore, idxFile, file)
+		cmd.Dir = dir
 		cmd.Env = append(os.Environ(), "HOME="+dir)
 		if out, err := cmd.CombinedOutput(); err != nil {
 			c.Violation("chop-failed", "%s chop: %v %s", leg, err, out)
@@ -332,6 +340,44 @@ func run(c *harness.Ctx, i int) {
 		c.NonTrivial("%s|u%v|%s", leg, uncompressed, class)
 	case "mixed":
 		mixed(c, dir, store, uncompressed, want, order)
+	case "streaming-frames":
+		// chunk files written the way casync writes them: libzstd streaming API, size not announced (frame with a
+		// window descriptor instead of a content size). Both builds must read them.
+		for _, id := range order {
+			s := id.String()
+			pf := filepath.Join(dir, "plain")
+			dsu.WriteFile(pf, want[id])
+			out := filepath.Join(store, s[:4], s+".cacnk")
+			os.MkdirAll(filepath.Dir(out), 0755)
+			if o, err := exec.Command(zcheck, "-c", pf, out).CombinedOutput(); err != nil {
+				c.Inconclusive("zstdcheck -c: %v %s", err, o)
+				return
+			}
+		}
+		if !checkStore(c, "store of libzstd streaming-API frames (casync style)", store, false, want) {
+			return
+		}
+		ls, _ := desync.NewLocalStore(store, desync.StoreOptions{})
+		for _, id := range order {
+			ch, err := ls.GetChunk(id)
+			if err != nil {
+				c.Violation("casync-style-frame-rejected", "default build cannot read a standard zstd frame written with libzstd's streaming API for a chunk of %d bytes: %v", len(want[id]), err)
+				return
+			}
+			if b, _ := ch.Data(); !bytes.Equal(b, want[id]) {
+				c.Violation("casync-style-frame-rejected", "default build reads other bytes from a streaming-API frame")
+				return
+			}
+		}
+		var msgs bytes.Buffer
+		if err := ls.Verify(context.Background(), 2, true, &msgs); err != nil || msgs.Len() > 0 {
+			c.Violation("casync-style-frame-rejected", "verify --repair on a store of streaming-API frames: %v %s", err, msgs.String())
+			return
+		}
+		if !ddVerify(c, dir, store, false, "store of streaming-API frames") {
+			return
+		}
+		c.NonTrivial("streaming-frames|%s", class)
 	}
 	c.Count("stores_checked", 1)
 	c.Sample(map[string]interface{}{"leg": leg, "uncompressed": uncompressed, "class": class, "chunks": len(want)})
